@@ -1,5 +1,5 @@
 (* C10 - Receive Maximum is never exceeded; the send quota neither leaks nor overflows. *)
-From Poster Require Import Model.Client Proofs.ClientP Proofs.QuotaP.
+From Poster Require Import Model.Client Proofs.BytesP Proofs.ClientP Proofs.QuotaP Proofs.HandshakeP.
 
 (* unconditional, any broker: 0 <= quota <= Receive Maximum is preserved by every handler, so
    the u16 quota can neither underflow nor grow beyond R *)
@@ -69,3 +69,18 @@ Theorem C10_unlimited : forall (s : sys) (m : cmsg),
   quota (c (fst (handle_message s m))) = quota (c s).
 Proof. exact quota_untouched. Qed.
 Print Assumptions C10_unlimited.
+
+(* a resumed session (finding F21): the unfinished handshakes re-sent at the start of run() - each a QoS>0 PUBLISH of
+   the previous connection not yet completed (C17_queue_is_unfinished) - take their slots out of the quota the new
+   CONNACK has just set to R (C10_from_connack). So after resumption quota + re-sent = R again (when they fit), R is
+   untouched, and the accounting of C10_exact carries on from there. *)
+Theorem C10_resume : forall (l : list (N * bytes)) (s : sys), wbudget s = None -> quota (c s) = rmax (c s) ->
+  let s' := fst (retransmit s l) in
+  rmax (c s') = rmax (c s) /\ quota (c s') = rmax (c s) - lenN l /\
+  (lenN l <= rmax (c s) -> quota (c s') + lenN l = rmax (c s')).
+Proof.
+  intros l s Hb Hq. cbv zeta. destruct (retransmit_wire l s Hb) as (_ & _ & Hs & Hquota & _).
+  destruct Hs as (_ & _ & _ & _ & Hr & _). rewrite Hr, Hquota, Hq. split; [reflexivity|]. split; [reflexivity|]. intros H.
+  apply N.sub_add. exact H.
+Qed.
+Print Assumptions C10_resume.
